@@ -360,6 +360,9 @@ class Flow:
                         for j, t in enumerate(gen.target.elts):
                             if isinstance(t, ast.Name) and t.id == e.id:
                                 idx = j
+                    zp = self._zip_position(gen.iter, idx, fn, env, depth)
+                    if zp is not None:
+                        return zp
                     return fs(("elem", fs(("sub", it, fs(("const", idx))))))
             child = n
             n = self.prog.parent.get(n)
@@ -455,6 +458,10 @@ class Flow:
                 out |= elems
             elif what == "iterunpack":
                 it, idx = payload
+                zp = self._zip_position(it, idx, f, env, depth)
+                if zp is not None:
+                    out |= zp
+                    continue
                 itt = self.term(it, f, env, depth + 1)
                 elems = self._iter_elems(itt, env, depth) if any(t[0] == "inst" for t in itt) else frozenset()
                 tuples = [t for t in elems if t[0] == "list" and idx is not None and len(t[1]) > idx]
@@ -477,6 +484,22 @@ class Flow:
         for (val, site, keys, leaf) in self.local_mutations(f).get(name, []):
             out.add(self.mut_term(val, site, keys, leaf, f, env, depth))
         return frozenset(out)
+
+    def _zip_position(self, it, idx, f, env, depth):
+        """for a, b in zip(x, y) / for i, a in enumerate(x): the idx-th target takes the elements of that argument only."""
+        if not (isinstance(it, ast.Call) and isinstance(it.func, ast.Name) and idx is not None and not it.keywords
+                and not any(isinstance(a, ast.Starred) for a in it.args)):
+            return None
+        if ("ext", "builtins." + it.func.id) not in {k[:2] for k in self.res.kinds(it.func, f)}:
+            return None
+        if it.func.id == "zip" and idx < len(it.args):
+            return self._iter_elems(self.term(it.args[idx], f, env, depth + 1), env, depth)
+        if it.func.id == "enumerate" and len(it.args) >= 1:
+            if idx == 0:
+                return fs(("ext", "builtins.int", ()))
+            if idx == 1:
+                return self._iter_elems(self.term(it.args[0], f, env, depth + 1), env, depth)
+        return None
 
     def _consumed(self, arg_terms, env, depth):
         """An argument that is iterated by its consumer (b''.join(x), list(x), x.extend(y) ...): a package iterator instance
@@ -619,6 +642,17 @@ class Flow:
                 m = self.prog.find_method(c, e.attr)
                 stores = self.attr_stores(c, e.attr)
                 if m is not None and not stores:
+                    if any(ast.unparse(d).split(".")[-1] in ("property", "cached_property") for d in m.decorators):
+                        # a property: the attribute reads as what the getter returns, for this receiver
+                        penv = dict(env) if is_self else {}
+                        if not is_self:
+                            for t in self.term(e.value, fn, env, depth + 1, mod):
+                                if t[0] == "inst":
+                                    for pn, pv in t[2]:
+                                        penv[pn] = pv
+                        for r in self.res.return_exprs(m):
+                            out |= self.term(r, m, penv, depth + 1)
+                        continue
                     out.add(("global", m.module.name, m.qualname))
                     continue
                 if not stores:
